@@ -112,6 +112,13 @@ class extract_visitor(NodeVisitor):
             self.flow.mark_local(name.id)
         self.generic_visit(node)
 
+    def visit_TypeAlias(self, node):
+        # type: (ast.AST) -> None
+        # `type X = int` binds X where it stands
+        name = node.name  # type: ignore[attr-defined]
+        self.flow.add_name(AssignedName(name.id, get_expr_end(node.value), np(name), node.value))  # type: ignore[attr-defined]
+        self.generic_visit(node)
+
     def visit_AugAssign(self, node):
         # type: (ast.AugAssign) -> None
         if isinstance(node.target, AstName):
